@@ -260,4 +260,231 @@ theorem Kernel.children_none_gone (k : Kernel) (pid : Nat) (r : Bool)
       exact ⟨p, hf, hg⟩
     · split at h <;> cases h
 
+/-! ### not a child of the daemon
+
+Workers are forked by the daemon (`ppid = some 0`) and stay its children; the processes a worker forks
+have `ppid = some worker` until the worker dies (`none`).  "Not a child of the daemon" is therefore
+stable: it is how the signal entries for a worker's children are told from those for workers. -/
+
+/-- the process table knows `pid`, and not as a child of the daemon -/
+def Kernel.NDC (k : Kernel) (pid : Nat) : Prop := ∃ p, k.find pid = some p ∧ p.ppid ≠ some 0
+
+def KNMono (k k' : Kernel) : Prop := ∀ pid, k.NDC pid → k'.NDC pid
+
+def KNMonoOp {α : Type} (f : Kernel → Kernel × α) : Prop := ∀ k, KNMono k (f k).1
+
+namespace KNMono
+
+theorem refl (k : Kernel) : KNMono k k := fun _ h => h
+
+theorem trans {a b c : Kernel} (h1 : KNMono a b) (h2 : KNMono b c) : KNMono a c :=
+  fun pid h => h2 pid (h1 pid h)
+
+theorem map (k : Kernel) (f : KProc → KProc) (hf : ∀ p, (f p).pid = p.pid ∧ (p.ppid ≠ some 0 → (f p).ppid ≠ some 0))
+    (k' : Kernel) (hk : k'.procs = k.procs.map f) : KNMono k k' := by
+  intro pid ⟨p, hp, hg⟩
+  refine ⟨f p, ?_, (hf p).2 hg⟩
+  simp only [Kernel.find] at hp ⊢
+  rw [hk, KMono.find_map _ _ (fun p => (hf p).1), hp]
+  rfl
+
+theorem same (k k' : Kernel) (h : k'.procs = k.procs) : KNMono k k' :=
+  map k id (fun _ => ⟨rfl, fun h => h⟩) k' (by rw [h, List.map_id])
+
+theorem upd (k : Kernel) (pid : Nat) (f : KProc → KProc) (hf : ∀ p, (f p).pid = p.pid ∧ (f p).ppid = p.ppid) :
+    KNMono k (k.upd pid f) := by
+  apply map k (fun p => if p.pid = pid then f p else p) _ _ rfl
+  intro p
+  split
+  · exact ⟨(hf p).1, fun h => by rw [(hf p).2]; exact h⟩
+  · exact ⟨rfl, fun h => h⟩
+
+theorem dead (k : Kernel) (pid st : Nat) : KNMono k (k.dead pid st) := by
+  apply map k _ _ _ rfl
+  intro p
+  split
+  · exact ⟨rfl, fun h => h⟩
+  · split
+    · exact ⟨rfl, fun _ => by simp⟩
+    · exact ⟨rfl, fun h => h⟩
+
+theorem die (k : Kernel) (pid st : Nat) : KNMono k (k.die pid st) := by
+  unfold Kernel.die
+  split
+  · split
+    · exact dead k pid st
+    · exact refl k
+  · exact refl k
+
+theorem foldl {β : Type} (l : List β) (f : Kernel → β → Kernel) (hf : ∀ k b, KNMono k (f k b)) (k : Kernel) :
+    KNMono k (l.foldl f k) := by
+  induction l generalizing k with
+  | nil => exact refl k
+  | cons x xs ih => exact trans (hf k x) (ih (f k x))
+
+theorem resolve (k : Kernel) : KNMono k k.resolve := by
+  unfold Kernel.resolve
+  apply foldl
+  intro k p0
+  split
+  · split
+    · split
+      · exact dead _ _ _
+      · exact refl _
+    · exact refl _
+  · exact refl _
+
+theorem tick (k : Kernel) : KNMono k k.tick := by
+  unfold Kernel.tick
+  refine trans (b := { k with calls := k.calls + 1, armed := k.armed.filter (fun f => ¬ (f.1 ≤ k.calls + 1)) }) (same _ _ rfl) ?_
+  refine trans ?_ (resolve _)
+  apply foldl
+  intro k f; exact die _ _ _
+
+theorem doomAt (k : Kernel) (pid dl st : Nat) : KNMono k (k.doomAt pid dl st) := by
+  unfold Kernel.doomAt
+  apply upd
+  intro p
+  split
+  · split
+    · exact ⟨rfl, rfl⟩
+    · exact ⟨rfl, rfl⟩
+  · exact ⟨rfl, rfl⟩
+
+theorem kill (pid sig : Nat) : KNMonoOp (fun k => Kernel.kill k pid sig) := by
+  intro k
+  simp only [Kernel.kill]
+  refine trans (tick k) ?_
+  generalize k.tick = k1
+  split
+  · exact refl _
+  · split
+    · exact refl _
+    · split
+      · simp only
+        refine trans ?_ (resolve _)
+        split
+        · exact doomAt _ _ _ _
+        · split
+          · exact refl _
+          · split
+            · exact doomAt _ _ _ _
+            · exact refl _
+      · exact refl _
+
+theorem waitpid (pid : Option Nat) : KNMonoOp (fun k => Kernel.waitpid k pid) := by
+  intro k
+  simp only [Kernel.waitpid]
+  refine trans (tick k) ?_
+  generalize k.tick = k1
+  split
+  · exact refl _
+  · exact refl _
+  · split
+    · exact refl _
+    · split
+      · exact refl _
+      · split
+        · exact refl _
+        · apply upd; intro p; exact ⟨rfl, rfl⟩
+
+theorem stateOf (pid : Nat) : KNMonoOp (fun k => Kernel.stateOf k pid) := by
+  intro k; exact tick k
+
+theorem children (pid : Nat) (r : Bool) : KNMonoOp (fun k => Kernel.children k pid r) := by
+  intro k
+  simp only [Kernel.children]
+  refine trans (tick k) ?_
+  generalize k.tick = k1
+  split
+  · exact refl _
+  · split
+    · exact refl _
+    · split <;> exact refl _
+
+theorem sleep (k : Kernel) (ms : Nat) : KNMono k (Kernel.sleep k ms) := by
+  simp only [Kernel.sleep]
+  exact trans (b := { k with now := k.now + (if ms = 0 then 1 else ms), slept := k.slept + (if ms = 0 then 1 else ms), spins := k.spins + 1 }) (same _ _ rfl) (tick _)
+
+theorem beginStep (k : Kernel) : KNMono k k.beginStep := same _ _ rfl
+
+theorem advance (k : Kernel) (ms : Nat) (ds : List Nat) : KNMono k (k.advance ms ds) := by
+  unfold Kernel.advance
+  exact trans (b := { k with now := max k.now (min (k.now + ms) (ds.foldl min (k.now + ms))) }) (same _ _ rfl) (resolve _)
+
+theorem addFault (k : Kernel) (n pid st : Nat) : KNMono k (k.addFault n pid st) := same _ _ rfl
+
+theorem setNow (k : Kernel) (t : Nat) : KNMono k ({ k with now := t }).resolve :=
+  trans (b := { k with now := t }) (same _ _ rfl) (resolve _)
+
+theorem append (k k' : Kernel) (l : List KProc) (h : k'.procs = k.procs ++ l) : KNMono k k' := by
+  intro pid ⟨p, hp, hg⟩
+  refine ⟨p, ?_, hg⟩
+  simp only [Kernel.find] at hp ⊢
+  rw [h, List.find?_append, hp]
+  rfl
+
+theorem spawn (k : Kernel) : KNMono k k.spawn.1 := by
+  simp only [Kernel.spawn]
+  refine trans (tick k) ?_
+  generalize k.tick = k1
+  split
+  · exact same _ _ rfl
+  · exact append _ _ _ (List.append_assoc _ _ _)
+
+end KNMono
+
+theorem insertSorted_mem {x y : Nat} {l : List Nat} (h : y ∈ Kernel.insertSorted x l) : y = x ∨ y ∈ l := by
+  induction l with
+  | nil => simp only [Kernel.insertSorted, List.mem_singleton] at h; exact Or.inl h
+  | cons z zs ih =>
+    simp only [Kernel.insertSorted] at h
+    split at h
+    · rcases List.mem_cons.mp h with h | h
+      · exact Or.inl h
+      · exact Or.inr h
+    · rcases List.mem_cons.mp h with h | h
+      · exact Or.inr (by rw [h]; exact List.mem_cons_self)
+      · rcases ih h with h | h
+        · exact Or.inl h
+        · exact Or.inr (List.mem_cons_of_mem _ h)
+
+theorem sortNat_mem {y : Nat} {l : List Nat} (h : y ∈ Kernel.sortNat l) : y ∈ l := by
+  induction l with
+  | nil => exact h
+  | cons x xs ih =>
+    simp only [Kernel.sortNat, List.foldr_cons] at h
+    rcases insertSorted_mem h with h | h
+    · rw [h]; exact List.mem_cons_self
+    · exact List.mem_cons_of_mem _ (ih h)
+
+/-- a direct child found by `children()` is a process of the table whose parent is `pid` -/
+theorem Kernel.children_direct (k : Kernel) (pid : Nat) (l : List Nat) (h : (k.children pid false).2 = some l)
+    (c : Nat) (hc : c ∈ l) : ∃ kp ∈ (k.children pid false).1.procs, kp.pid = c ∧ kp.ppid = some pid := by
+  simp only [Kernel.children] at h ⊢
+  generalize k.tick = k1 at h ⊢
+  split at h
+  · cases h
+  · split at h
+    · cases h
+    · split at h
+      · simp only [Option.some.injEq] at h
+        subst h; cases hc
+      · simp only [Option.some.injEq] at h
+        subst h
+        rename_i h1 h2
+        rw [if_neg h1, if_neg h2]
+        cases hl : k1.procs.length + 1 with
+        | zero => omega
+        | succ n =>
+          rw [hl] at hc
+          simp only [Kernel.childrenOf, Bool.false_eq_true, if_false] at hc
+          have := sortNat_mem hc
+          obtain ⟨kp, hkp, rfl⟩ := List.mem_map.mp this
+          have hf := List.mem_filter.mp hkp
+          refine ⟨kp, hf.1, rfl, ?_⟩
+          have := hf.2
+          simp only [Bool.and_eq_true, decide_eq_true_eq] at this
+          exact this.1
+
 end Circus.Core
